@@ -1145,7 +1145,7 @@ def run(ctx):
         raise vlib.InfraError("no vectors exported by " + mod)
     check_vectors(ctx, exe, vecs, mod)
     salt0 = min(r["salt"] for r in vecs)
-    motif_graphs = [(r["vs"], r["es"]) for r in vecs if r["salt"] == salt0 and r["n"] <= 5 or r["n"] == 7]
+    motif_graphs = [(r["vs"], r["es"]) for r in vecs if r["salt"] == salt0 and (r["n"] <= 5 or r["n"] == 7)]
     ctx.sample({"graph_vector": dict((k, v) for k, v in vecs[len(vecs) // 2].items() if k != "cands")})
     mod = "MCLaws" if quick else "MCLawsThorough"
     res = vlib.tlc("graph", mod, cfg=mod + ".cfg", timeout=3000)
@@ -1174,9 +1174,10 @@ def run(ctx):
     del hists
 
     # ---- 3a. the id as a string: adversarial names, mass lattice --------------------------------------
-    res = vlib.tlc("graph", "MCIdString", cfg="MCIdString.cfg", timeout=1200)
+    mod = "MCIdString" if quick else "MCIdStringThorough"
+    res = vlib.tlc("graph", mod, cfg=mod + ".cfg", timeout=1200)
     vlib.tlc_must_hold(res, "IdString: ids of keyword-free names are injective on the family")
-    ctx.add_tlc("MCIdString", res)
+    ctx.add_tlc(mod, res)
     res2 = vlib.tlc("graph", "IdMass", cfg="IdMass.cfg", timeout=600)
     vlib.tlc_must_hold(res2, "IdMass: lattice masses have at most 8 significant digits")
     ctx.add_tlc("IdMass", res2)
